@@ -512,7 +512,9 @@ Section RKF.
     - destruct e; try contradiction; apply (rg_raise f _ g out Hc H).
   Qed.
 
-  Theorem rekey_fault_all : forall atomic g out, grane (op_prog frepr atomic o) f0 g out -> RG g out.
+  (* the protocol entered without the validating read (whole assignment through a handle that never loaded its
+     state point: op_prog_r ... true); also the tail of every other re-key route *)
+  Theorem rekey_fault_core : forall atomic g out, grane (rekey frepr atomic [] ws old nsp ret_res) f0 g out -> RG g out.
   Proof.
     intros atomic g out H.
     destruct (rk_src frepr wss f0 w1 w2 wr old HW Hws Hold) as [Hod0 [c [v0 [G [J E]]]]]. fold ws odir fname in Hod0, G.
@@ -521,12 +523,6 @@ Section RKF.
     pose proof (cinv_rk_st1 frepr wss f0 w1 w2 wr old nsp HW Hws Hold Hne c Hod0) as C1.
     pose proof (cinv_rk_st3 frepr wss f0 w1 w2 wr old nsp HW Hws Hold Hne c v0 G J Hod0) as C3.
     fold ws o in Hpre, C1, C3.
-    unfold op_prog, o, rekey_by_id, with_sp, sp_load in H.
-    replace (ws ++ [old; SPF]) with fname in H by (unfold fname, odir; rewrite <- app_assoc; reflexivity).
-    apply grane_do in H. destruct H as [H|[e [He H]]].
-    2: { destruct e; try contradiction; apply (rg_raise f0 _ g out Hpre H). }
-    assert (E0 : exec_res f0 (CRead fname) = (f0, FOk (RData c))) by (unfold exec_res; cbn [exec]; rewrite G; reflexivity).
-    rewrite E0 in H. cbn [fst snd] in H. rewrite J, Hnn, E, str_eqb_refl in H.
     unfold rekey in H. fold new in H.
     assert (En : str_eqb old new = false) by (apply str_eqb_neq; exact Hne).
     rewrite En in H. cbv zeta in H. fold odir ndir fname bak in H.
@@ -650,6 +646,22 @@ Section RKF.
         unfold ndir, new, ws. rewrite (st2_new frepr w1 w2 wr old nsp f1 f2 S2). fold ws odir.
         apply (st1_pay f0 w1 w2 wr old nsp Hnspnn c f1 S1 r c2 Hp Hg).
   Qed.
+
+  Theorem rekey_fault_all : forall atomic g out, grane (op_prog frepr atomic o) f0 g out -> RG g out.
+  Proof.
+    intros atomic g out H.
+    destruct (rk_src frepr wss f0 w1 w2 wr old HW Hws Hold) as [Hod0 [c [v0 [G [J E]]]]]. fold ws odir fname in Hod0, G.
+    pose proof (winv_job_nn frepr wss f0 ws old HW Hws Hold c v0 G J) as Hnn.
+    pose proof (cinv_rk_pre frepr wss f0 w1 w2 wr old nsp HW Hws Hold Hne c v0 G J Hod0) as Hpre.
+    fold ws o in Hpre.
+    unfold op_prog, o, rekey_by_id, with_sp, sp_load in H.
+    replace (ws ++ [old; SPF]) with fname in H by (unfold fname, odir; rewrite <- app_assoc; reflexivity).
+    apply grane_do in H. destruct H as [H|[e [He H]]].
+    2: { destruct e; try contradiction; apply (rg_raise f0 _ g out Hpre H). }
+    assert (E0 : exec_res f0 (CRead fname) = (f0, FOk (RData c))) by (unfold exec_res; cbn [exec]; rewrite G; reflexivity).
+    rewrite E0 in H. cbn [fst snd] in H. rewrite J, Hnn, E, str_eqb_refl in H.
+    exact (rekey_fault_core atomic g out H).
+  Qed.
 End RKF.
 
 Theorem fault_safe_rekey_thm : forall frepr wss f0 w1 w2 wr old nsp atomic plan,
@@ -666,6 +678,22 @@ Proof.
   pose proof (run_fault_grane unit plan (op_prog frepr atomic o) 0 f0 Hplan) as Hrun.
   destruct (run_fault plan 0 (op_prog frepr atomic o) f0) as [g out]. cbn [fst snd] in Hrun.
   apply (rekey_fault_all frepr wss f0 w1 w2 wr old nsp HW Hws Hold Hne Hnotmp Hnn atomic g out Hrun).
+Qed.
+
+Theorem fault_safe_assign_thm : forall frepr wss f0 w1 w2 wr old nsp atomic plan,
+  WInv frepr wss f0 -> In (w1 :: w2 :: wr) wss -> In old (job_dirs f0 (w1 :: w2 :: wr)) ->
+  old <> calc_id frepr nsp ->
+  get f0 (((w1 :: w2 :: wr) ++ [old]) ++ [TMPPFX ++ [] ++ SPF]) = None ->
+  is_jnull nsp = false ->
+  (forall m, plan m <> Some ENOENT) ->
+  let o := KRekey (w1 :: w2 :: wr) old nsp in
+  let '(g, out) := run_fault plan 0 (op_prog_r frepr atomic true o) f0 in
+  CInv frepr o wss f0 g /\ (out = inl tt -> post_ok frepr o f0 g = true).
+Proof.
+  intros frepr wss f0 w1 w2 wr old nsp atomic plan HW Hws Hold Hne Hnotmp Hnn Hplan o.
+  pose proof (run_fault_grane unit plan (op_prog_r frepr atomic true o) 0 f0 Hplan) as Hrun.
+  destruct (run_fault plan 0 (op_prog_r frepr atomic true o) f0) as [g out]. cbn [fst snd] in Hrun.
+  apply (rekey_fault_core frepr wss f0 w1 w2 wr old nsp HW Hws Hold Hne Hnotmp Hnn atomic g out Hrun).
 Qed.
 
 (* ------------------------------------------------------------------ the handle after a faulted re-key *)
@@ -779,6 +807,101 @@ Section RKH.
       assert (E2 : exec_res f1 (CRename odir ndir) = (f1, FErr e')) by (unfold exec_res; cbn [exec]; unfold odir, ndir, new, ws; rewrite Er; reflexivity).
       rewrite run_fault_do. cbn [single Nat.eqb].
       rewrite E0, J, Hnn, E, str_eqb_refl.
+      unfold rekey_h. fold new. rewrite En. cbv zeta. fold odir ndir fname bak.
+      rewrite run_fault_do. cbn [single Nat.eqb]. rewrite E1.
+      rewrite run_fault_do. cbn [single Nat.eqb]. rewrite E2. cbn [fst snd].
+      destruct k3 as [|[|[|k6]]].
+      + (* 3: the rollback fails: the file stays parked, nothing to restore from *)
+        destruct Hee as [-> | ->];
+        (rewrite run_fault_do; cbn [single Nat.eqb];
+         destruct e; try contradiction;
+         (rewrite run_fault_do; cbn [single Nat.eqb]; rewrite E1n; cbn [fst snd];
+          fin Q0 Q3 Q1)).
+      + (* 4: the restoring read fails: the outer handler's read restores *)
+        destruct Hee as [-> | ->];
+        (rewrite run_fault_do; cbn [single Nat.eqb]; rewrite E3;
+         rewrite run_fault_do; cbn [single Nat.eqb];
+         destruct e; try contradiction;
+         (rewrite run_fault_do; cbn [single Nat.eqb]; rewrite E5, J, Hnn; cbn [fst snd];
+          fin Q0 Q3 Q1)).
+      + (* 5: the outer handler's read fails (non-collision errno only): already restored *)
+        destruct Hee as [-> | ->];
+        (rewrite run_fault_do; cbn [single Nat.eqb]; rewrite E3;
+         rewrite run_fault_do; cbn [single Nat.eqb]; rewrite E5, J, Hnn; cbn [fst snd];
+         cbv beta iota delta [dest_exists_e];
+         try (rewrite run_fault_do; cbn [single Nat.eqb]; destruct e; try contradiction);
+         (fin Q0 Q3 Q1)).
+      + (* no injection *)
+        destruct Hee as [-> | ->];
+        (rewrite run_fault_do; cbn [single Nat.eqb]; rewrite E3;
+         rewrite run_fault_do; cbn [single Nat.eqb]; rewrite E5, J, Hnn; cbn [fst snd];
+         cbv beta iota delta [dest_exists_e];
+         try (rewrite run_fault_do; cbn [single Nat.eqb]; rewrite E5, J, Hnn; cbn [fst snd]);
+         (fin Q0 Q3 Q1)).
+  Qed.
+  (* the same for the whole-assignment route of a handle that never loaded its state point (no validating read
+     first: call 0 is the parking of the state point file, call 1 the directory rename) *)
+  Definition as_obs (atomic : bool) : prog (hst * ores) :=
+    op1_h_r frepr atomic true (KRekey ws old nsp) (fun h r => Ret (h, r)).
+
+  Theorem assign_fault_restores_handle : forall atomic k e, e <> ENOENT ->
+    k <= 1 \/ occupied frepr f0 w1 w2 wr nsp = true ->
+    exists f h x,
+      run_fault (single k e) 0 (as_obs atomic) f0 = (f, inl (h, inr x)) /\
+      hs_ws h = ws /\ hs_id h = old /\
+      forall v, sp_value f ws old = Some v ->
+        sp_value f0 ws old = Some v /\ (hs_sp h = None \/ hs_sp h = Some v).
+  Proof.
+    intros atomic k e He Hk.
+    destruct (rk_src frepr wss f0 w1 w2 wr old HW Hws Hold) as [Hod0 [c [v0 [G [J E]]]]]. fold ws odir fname in Hod0, G.
+    pose proof (winv_job_nn frepr wss f0 ws old HW Hws Hold c v0 G J) as Hnn.
+    assert (Hfb : fname <> bak).
+    { apply path_eqb_neq. unfold fname, bak. rewrite path_eqb_snoc. reflexivity. }
+    assert (Hpb : get f0 (parent bak) = Some Dir) by (unfold bak; rewrite parent_snoc; exact Hod0).
+    destruct (rename_file_ok f0 fname bak c G Hpb Hfb Hbak) as [f1 [E1 S1]].
+    change (st1 f0 w1 w2 wr old c f1) in S1.
+    assert (P1 : get f1 bak = Some (File c)) by (rewrite S1; fold ws odir bak; rewrite path_eqb_refl; reflexivity).
+    assert (P2 : get f1 (parent fname) = Some Dir) by (unfold fname; rewrite parent_snoc; apply (st1_odir f0 w1 w2 wr old c Hod0 f1 S1)).
+    assert (Hfn1 : get f1 fname = None) by (apply (st1_fname f0 w1 w2 wr old c f1 S1)).
+    assert (P3 : get f1 fname <> Some Dir) by (rewrite Hfn1; discriminate).
+    destruct (rename_file_ok f1 bak fname c P1 P2 (not_eq_sym Hfb) P3) as [f3 [E3 H3]].
+    assert (G3 : get f3 fname = Some (File c)) by (rewrite H3, path_eqb_refl; reflexivity).
+    assert (E0 : exec_res f0 (CRead fname) = (f0, FOk (RData c))) by (unfold exec_res; cbn [exec]; rewrite G; reflexivity).
+    assert (E1n : exec_res f1 (CRead fname) = (f1, FErr ENOENT)) by (unfold exec_res; cbn [exec]; rewrite Hfn1; reflexivity).
+    assert (E5 : exec_res f3 (CRead fname) = (f3, FOk (RData c))) by (unfold exec_res; cbn [exec]; rewrite G3; reflexivity).
+    assert (En : str_eqb old new = false) by (apply str_eqb_neq; exact Hne).
+    assert (V0 : sp_value f0 ws old = Some v0) by (rewrite sp_value_dir; fold ws odir fname; rewrite G; exact J).
+    assert (V3 : sp_value f3 ws old = Some v0) by (rewrite sp_value_dir; fold ws odir fname; rewrite G3; exact J).
+    assert (V1 : sp_value f1 ws old = None) by (rewrite sp_value_dir; fold ws odir fname; rewrite Hfn1; reflexivity).
+    pose proof (rk_rename_dir frepr wss f0 w1 w2 wr old nsp HW Hws Hne c f1 Hod0 S1) as Hren.
+    unfold as_obs, op1_h_r.
+    (* conclusions for the three final states *)
+    assert (Q0 : forall d, d = None \/ d = Some v0 -> forall v, sp_value f0 ws old = Some v -> sp_value f0 ws old = Some v /\ (d = None \/ d = Some v)).
+    { intros d Hd v Hv. split; auto. rewrite V0 in Hv. inversion Hv; subst. exact Hd. }
+    assert (Q3 : forall d, d = None \/ d = Some v0 -> forall v, sp_value f3 ws old = Some v -> sp_value f0 ws old = Some v /\ (d = None \/ d = Some v)).
+    { intros d Hd v Hv. rewrite V3 in Hv. inversion Hv; subst. split; auto. }
+    assert (Q1 : forall d : option json, forall v, sp_value f1 ws old = Some v -> sp_value f0 ws old = Some v /\ (d = None \/ d = Some v)).
+    { intros d v Hv. rewrite V1 in Hv. discriminate. }
+    destruct k as [|[|k3]].
+    - (* 0: parking the state point file fails; the outer handler re-reads the file *)
+      unfold rekey_h. fold new. rewrite En. cbv zeta. fold odir ndir fname bak.
+      rewrite run_fault_do. cbn [single Nat.eqb].
+      destruct e; try contradiction;
+        (rewrite run_fault_do; cbn [single Nat.eqb]; rewrite E0, J, Hnn; cbn [fst snd];
+         fin Q0 Q3 Q1).
+    - (* 1: the directory rename fails; rollback, restoring read, (outer handler: one more read) *)
+      unfold rekey_h. fold new. rewrite En. cbv zeta. fold odir ndir fname bak.
+      rewrite run_fault_do. cbn [single Nat.eqb]. rewrite E1.
+      rewrite run_fault_do. cbn [single Nat.eqb].
+      rewrite run_fault_do. cbn [single Nat.eqb]. rewrite E3.
+      rewrite run_fault_do. cbn [single Nat.eqb]. rewrite E5, J, Hnn. cbn [fst snd].
+      destruct e; try contradiction; cbv beta iota delta [dest_exists_e];
+        try (rewrite run_fault_do; cbn [single Nat.eqb]; rewrite E5, J, Hnn; cbn [fst snd]);
+        (fin Q0 Q3 Q1).
+    - (* later calls: only with an occupied destination *)
+      assert (Ho : occupied frepr f0 w1 w2 wr nsp = true) by (destruct Hk as [Hk|Hk]; [lia|exact Hk]).
+      rewrite Ho in Hren. destruct Hren as [e' [Er Hee]].
+      assert (E2 : exec_res f1 (CRename odir ndir) = (f1, FErr e')) by (unfold exec_res; cbn [exec]; unfold odir, ndir, new, ws; rewrite Er; reflexivity).
       unfold rekey_h. fold new. rewrite En. cbv zeta. fold odir ndir fname bak.
       rewrite run_fault_do. cbn [single Nat.eqb]. rewrite E1.
       rewrite run_fault_do. cbn [single Nat.eqb]. rewrite E2. cbn [fst snd].
